@@ -93,7 +93,7 @@ var props = map[string]propInfo{
 	"C02": {Level: "exploration", QuickS: 20, ThoroughS: 600},
 	"C03": {Level: "exploration", QuickS: 20, ThoroughS: 600},
 	"C04": {Level: "exploration", QuickS: 20, ThoroughS: 600},
-	"C05": {Level: "exploration", QuickS: 20, ThoroughS: 600, Checks: 10},
+	"C05": {Level: "exploration", QuickS: 20, ThoroughS: 600, Checks: 10, NeedsB: true},
 	"C06": {Level: "exploration", QuickS: 20, ThoroughS: 600},
 	"C07": {Level: "exploration", QuickS: 20, ThoroughS: 600},
 	"C08": {Level: "exploration", QuickS: 25, ThoroughS: 600},
@@ -308,7 +308,7 @@ func replay(simBin string, env []string, prop, tier, path, out string) (class st
 	if strings.Contains(log, "REPLAY-CLEAN") {
 		return "", false, log
 	}
-	if wr.code != 0 {
+	if wr.code == 2 {
 		return "", true, log
 	}
 	return "", false, log
@@ -427,7 +427,7 @@ func main() {
 		if r.stats == nil {
 			// crashed before writing stats?
 			cur := filepath.Join(r.out, "current.json")
-			if _, err := os.Stat(cur); err == nil && r.code != 0 {
+			if _, err := os.Stat(cur); err == nil && r.code == 2 {
 				cands = append(cands, cand{cur, prop + "/crash"})
 			} else {
 				hard = append(hard, fmt.Sprintf("worker %d exited %d without stats (see %s/log)", r.idx, r.code, r.out))
@@ -479,7 +479,9 @@ func main() {
 		}
 		if r.code != 0 && len(s.Violations) == 0 {
 			cur := filepath.Join(r.out, "current.json")
-			if _, err := os.Stat(cur); err == nil && (r.code == 2 || r.code < 0 || r.code > 3) {
+			// a Go panic or fatal error exits with status 2; a worker killed from
+			// outside (signal) is trouble with the machinery, not a crash of the code under test
+			if _, err := os.Stat(cur); err == nil && r.code == 2 {
 				cands = append(cands, cand{cur, prop + "/crash"})
 			} else {
 				hard = append(hard, fmt.Sprintf("worker %d exited %d without a recorded violation (see log)", r.idx, r.code))
